@@ -306,3 +306,84 @@ func RunCommand(path string, args []string, stdin []byte, extraEnv ...string) Re
 	}
 	return res
 }
+
+// BatchReq is one request for RunBatch.
+type BatchReq struct {
+	Args  []string `json:"args"`
+	Stdin string   `json:"stdin,omitempty"`
+}
+
+// RunBatch starts one fresh worker binary (e.g. the -race build of vrun), feeds it the requests one
+// after the other, closes it and returns the per-request results plus everything the process wrote
+// to stderr (race reports). Exit is the worker's exit code.
+func RunBatch(bin string, reqs []BatchReq, horizon time.Duration, extraEnv ...string) (results []Result, stderr string, exit int, hang bool) {
+	c := exec.Command(filepath.Join(binDir(), bin))
+	c.Env = childEnv(extraEnv...)
+	stdin, err := c.StdinPipe()
+	if err != nil {
+		panic(err)
+	}
+	pr, pw, err := os.Pipe()
+	if err != nil {
+		panic(err)
+	}
+	c.ExtraFiles = []*os.File{pw}
+	var errb bytes.Buffer
+	c.Stderr = &errb
+	if err := c.Start(); err != nil {
+		panic("runner: cannot start " + bin + ": " + err.Error())
+	}
+	pw.Close()
+	rd := bufio.NewReaderSize(pr, 1<<20)
+	deadline := time.After(horizon)
+	type rl struct {
+		line []byte
+		err  error
+	}
+	for _, rq := range reqs {
+		b, _ := json.Marshal(rq)
+		stdin.Write(append(b, '\n'))
+		ch := make(chan rl, 1)
+		go func() {
+			line, err := rd.ReadBytes('\n')
+			ch <- rl{line, err}
+		}()
+		select {
+		case x := <-ch:
+			if x.err != nil {
+				stdin.Close()
+				werr := c.Wait()
+				exit = -1
+				if ee, ok := werr.(*exec.ExitError); ok {
+					exit = ee.ExitCode()
+				}
+				results = append(results, Result{Crash: "worker died"})
+				pr.Close()
+				return results, errb.String(), exit, false
+			}
+			var res Result
+			json.Unmarshal(x.line, &res)
+			results = append(results, res)
+		case <-deadline:
+			c.Process.Kill()
+			c.Wait()
+			pr.Close()
+			return results, errb.String(), -1, true
+		}
+	}
+	stdin.Close()
+	done := make(chan error, 1)
+	go func() { done <- c.Wait() }()
+	select {
+	case werr := <-done:
+		if ee, ok := werr.(*exec.ExitError); ok {
+			exit = ee.ExitCode()
+		}
+	case <-time.After(60 * time.Second):
+		c.Process.Kill()
+		<-done
+		hang = true
+	}
+	pr.Close()
+	return results, errb.String(), exit, hang
+}
